@@ -15,6 +15,7 @@ from buidl.helper import (
     int_to_byte,
     int_to_little_endian,
     little_endian_to_int,
+    raw_decode_base58,
     read_varint,
     sha256,
     SIGHASH_ALL,
@@ -1025,15 +1026,17 @@ class TxOut:
             else:
                 raise ValueError(f"{address} is an unknown type of segwit address")
         elif address[0] in ("3", "2"):
-            h = decode_base58(address)
-            if len(h) == 20:
-                script_pubkey = P2SHScriptPubKey(h)
+            raw = raw_decode_base58(address)
+            # version byte 0x05 (mainnet) or 0xc4 (other networks) + hash160
+            if len(raw) == 21 and raw[0] in (0x05, 0xC4):
+                script_pubkey = P2SHScriptPubKey(raw[1:])
             else:
                 raise ValueError(f"{address} is not a valid base58 p2sh address")
         elif address[0] in ("1", "m", "n"):
-            h = decode_base58(address)
-            if len(h) == 20:
-                script_pubkey = P2PKHScriptPubKey(h)
+            raw = raw_decode_base58(address)
+            # version byte 0x00 (mainnet) or 0x6f (other networks) + hash160
+            if len(raw) == 21 and raw[0] in (0x00, 0x6F):
+                script_pubkey = P2PKHScriptPubKey(raw[1:])
             else:
                 raise ValueError(f"{address} is not a valid base58 p2pkh address")
         else:
